@@ -160,7 +160,7 @@ func TestVerifC03Gate(t *testing.T) {
 		}
 		select {
 		case <-g.entered:
-		case <-time.After(5 * time.Second):
+		case <-time.After(30 * time.Second):
 			out.Err = "gate message never processed"
 		}
 		for i := 0; i < len(c.Ops) && out.Err == ""; i++ {
@@ -192,7 +192,7 @@ func TestVerifC03Gate(t *testing.T) {
 		if out.Err == "" {
 			select {
 			case <-a.done:
-			case <-time.After(10 * time.Second):
+			case <-time.After(30 * time.Second):
 				out.Err = "timeout: not every queued message was processed"
 			}
 		}
@@ -330,14 +330,14 @@ func c03Stress(t *testing.T, sys ActorSystem, idx int, cfg c03StressCfg) c03Stre
 			_ = Tell(ctx, pid, &c03Ctl{Cmd: 3, Ack: ack})
 			select {
 			case <-ack:
-			case <-time.After(5 * time.Second):
+			case <-time.After(20 * time.Second):
 				return
 			}
 			// this one is queued behind every re-delivered message: its ack ends the phase
 			_ = Tell(ctx, pid, &c03Ctl{Cmd: 2, Ack: ack})
 			select {
 			case <-ack:
-			case <-time.After(5 * time.Second):
+			case <-time.After(20 * time.Second):
 				return
 			}
 		}
@@ -354,7 +354,7 @@ func c03Stress(t *testing.T, sys ActorSystem, idx int, cfg c03StressCfg) c03Stre
 	finished := true
 	select {
 	case <-a.done:
-	case <-time.After(6 * time.Second):
+	case <-time.After(25 * time.Second):
 		finished = false
 	}
 	ev := a.snapshot()
